@@ -13,35 +13,14 @@
 From DnsV Require Import Base.Bytes Model.Store Model.LookupV1 Model.LookupV2 Spec.Answer Spec.Rows.
 From DnsV Require Import Proofs.Compile Proofs.ZoneCut Proofs.NxDomain Proofs.Reverse Proofs.NoPanic.
 From DnsV Require Import Proofs.Store Proofs.Ctx Proofs.CtxFind Proofs.SortedStore Proofs.NoPanicV2Names.
+From DnsV Require Export Spec.KeysV2.
 From Coq Require Import ZifyN ZifyNat ZifyBool.
 Ltac Zify.zify_post_hook ::= Z.div_mod_to_equations.
 Open Scope N_scope.
 
-(* ---------------------------------------------------------------- the guard on the database *)
-Fixpoint rname_ok (fuel : nat) (l : bytes) : bool :=
-  match fuel with
-  | O => false
-  | S f =>
-      match l with
-      | [] => false
-      | c :: t => if c =? 0 then nlen t =? 2
-                  else (c <=? nlen t) && rname_ok f (skipn (N.to_nat c) t)
-      end
-  end.
-Definition key_ok (k : bytes) : bool :=
-  if is_prefix marker k then
-    match skipn 2 k with
-    | c :: t => (64 <=? c) || rname_ok (S (length k)) (c :: t)
-    | [] => false
-    end
-  else true.
-Fixpoint keys_once (st : store) : bool :=
-  match st with
-  | [] => true
-  | (k, _) :: t => negb (has_key t k) && keys_once t
-  end.
-Definition wf_store_v2 (st : store) : bool :=
-  keys_once st && forallb (fun kv => key_ok (fst kv)) st.
+(* ---------------------------------------------------------------- the guard on the database: Spec/KeysV2 *)
+Lemma rr_marker_eq : rr_marker = marker.
+Proof. reflexivity. Qed.
 
 Lemma has_key_in : forall (st : store) k, has_key st k = false -> forall v, ~ In (k, v) st.
 Proof.
@@ -105,7 +84,7 @@ Qed.
 
 Lemma key_ok_shape : forall k, key_ok k = true -> is_prefix marker k = true -> rr_key k \/ far_key k.
 Proof.
-  intros k H Hm. unfold key_ok in H. rewrite Hm in H. pose proof (marker_split k Hm) as Ek.
+  intros k H Hm. unfold key_ok in H. rewrite rr_marker_eq, Hm in H. pose proof (marker_split k Hm) as Ek.
   destruct (skipn 2 k) as [|c t]; [discriminate|].
   apply orb_prop in H as [H|H].
   - right. exists c, t. split; [exact Ek | lia].
